@@ -113,3 +113,50 @@ def kind_of(obj, fam):
     if n.startswith(fam.name):
         return n[len(fam.name):]
     return n
+
+
+def store_and_ghostify(objs, rec=None, label=''):
+    """Put the BTrees containers among `objs` into a MiniDB (one connection
+    per implementation), commit and sweep the caches, so that the operation
+    that follows meets its operands the way it does in a real database: as
+    ghosts whose nodes are loaded on demand.  Returns the connections (the
+    caller keeps them alive for the duration of the operation) and the number
+    of objects that were ghosts afterwards.
+
+    A tree with the F22/F34 shape (a node whose only leaf has no oid) would
+    come back damaged from the database; those operands are left in memory.
+    """
+    from . import minidb, walker
+    conns = {}
+    seen = set()
+    for o in objs:
+        n = type(o).__name__
+        if not hasattr(o, '_p_jar') or id(o) in seen:
+            continue
+        seen.add(id(o))
+        if o._p_jar is not None:
+            continue
+        impl = 'py' if n.endswith('Py') else 'c'
+        base = n[:-2] if impl == 'py' else n
+        if not base.endswith(('BTree', 'TreeSet', 'Bucket', 'Set')):
+            continue
+        if base.endswith(('BTree', 'TreeSet')):
+            try:
+                w = walker.walk(o, base.endswith('BTree'))
+            except Exception:
+                continue
+            if w.inline_nonroot:
+                if rec is not None:
+                    rec.ev('ghost-operand-skipped:f22-shape')
+                continue
+        if impl not in conns:
+            conns[impl] = minidb.Connection(minidb.Storage(), impl)
+        conns[impl].add(o)
+    nghost = 0
+    for impl, conn in conns.items():
+        conn.commit()
+        conn.cache.minimize()
+        nghost += sum(1 for x in conn.cached_objects() if x._p_state == -1)
+    if rec is not None and nghost:
+        rec.ev('%sghost-operands' % label)
+    return list(conns.values()), nghost
